@@ -342,6 +342,19 @@ def machineBA (idna : Spec.Idna) (base : Agg) (input : Bytes) : Option (Option A
     else if ty == 1 then some (afterSchemeNSA idna a frag rest)
     else some (afterSlashesA idna true ty frag (skipAuthoritySlashes rest) a)
 
+/-- `url_aggregator::get_origin()` -/
+def getOriginA (idna : Spec.Idna) (a : Agg) : Bytes :=
+  let proto := getProtocol a
+  let ty := getSchemeType proto.dropLast
+  if ty != 1 then (if ty == 6 then bNullB else proto ++ [0x2F, 0x2F] ++ getHost a)
+  else if proto == Spec.bBlob ++ [0x3A] && !(getPathname a).isEmpty then
+    match parseNoBaseA idna (getPathname a) with
+    | some p =>
+      let pty := getSchemeType (getProtocol p).dropLast
+      if pty == 0 || pty == 2 then getProtocol p ++ [0x2F, 0x2F] ++ getHost p else bNullB
+    | none => bNullB
+  else bNullB
+
 /-- the entry check on the raw input and `enforce_max_length()` (on `buffer.size()`) around it -/
 def parseNoBaseAL (idna : Spec.Idna) (L : Nat) (input : Bytes) : Option Agg :=
   if input.length > L then none
